@@ -125,6 +125,9 @@ fn reference<B: Backend + Default>(plan: &Value, literals: &[String], paths: &[P
 /// the text's shape with respect to a line-buffered stream whose buffer holds STDOUT_BUF bytes (std: 1024)
 const STDOUT_BUF: usize = 1024;
 fn shape_of(text: &str) -> &'static str {
+    if text.is_empty() {
+        return "no_text";
+    }
     let rest = text.len() - text.rfind('\n').map(|i| i + 1).unwrap_or(0);
     match (text.contains('\n'), rest) {
         (true, 0) => "ends_in_newline",
@@ -380,12 +383,16 @@ pub fn drive(args: &[String]) -> i32 {
             {"k": kind, "p": 0, "m": 1, "role": "def", "opt": "req", "kw": "none", "add": false, "ref": 0, "qual": false, "c": 0, "tagall": false,
              "marker": false, "vk": "", "fault": "none", "ft": 0}]})));
     }
+    // a module without assignments: the TypeScript backend's text for it is the empty string (Delivery.tla: EmptyText), which
+    // must be delivered like any other -- the destination exists afterwards and is empty, an unwritable one is an Err
+    tables.push(Table::from_json(&json!({"mods": [{"tagdef": "AUTOMATIC", "implied": false}], "nodes": []})));
     let mut jobs: Vec<(usize, usize)> = (0..plans.len()).flat_map(|ci| (0..per_plan).map(move |k| (ci, (ci * 3 + k * 7) % ngen))).collect();
     for (ci, p) in plans.iter().enumerate() {
         if p["mode"] == "stdout" {
             jobs.push((ci, ngen));
             jobs.push((ci, ngen + 1));
         }
+        jobs.push((ci, ngen + 2));
     }
     let events = util::par_chunks(&jobs, 8, util::threads(), |_, chunk| {
         run::install_panic_hook();
